@@ -64,6 +64,30 @@ var codecIDs = []string{
 	"deadbeef-dead-4eef-bead-beefdeadbeef",
 }
 
+// idPairs: all pairs of the boundary ids, plus every id with a single non-zero byte (each of the 16
+// positions, values 01 and ff) on either side.
+var idPairsCache [][2]string
+
+func idPairs() [][2]string {
+	if idPairsCache != nil {
+		return idPairsCache
+	}
+	for _, a := range codecIDs {
+		for _, b := range codecIDs {
+			idPairsCache = append(idPairsCache, [2]string{a, b})
+		}
+	}
+	for pos := 0; pos < 16; pos++ {
+		for _, v := range []byte{0x01, 0xff} {
+			raw := make([]byte, 16)
+			raw[pos] = v
+			id := uuidString(raw)
+			idPairsCache = append(idPairsCache, [2]string{id, codecIDs[3]}, [2]string{codecIDs[3], id})
+		}
+	}
+	return idPairsCache
+}
+
 func codecKeys() []string {
 	alpha := []byte{0x00, 'a', 0x80, 0xff}
 	keys := []string{""}
@@ -118,8 +142,9 @@ func init() {
 			Run: func(i int64) *enum.Outcome {
 				o := &enum.Outcome{}
 				key, seq := keys[i/int64(len(seqs))], seqs[i%int64(len(seqs))]
-				for _, tx := range codecIDs {
-					for _, cid := range codecIDs {
+				for _, pr := range idPairs() {
+					tx, cid := pr[0], pr[1]
+					{
 						o.Steps++
 						rec := &recorder{sets: map[string][]byte{}}
 						repo := filerepo.New(rec)
